@@ -52,7 +52,8 @@ Definition implb' (a b : bool) := if a then b else true.
 
 (* codes:
      1  model of FitToGraph / PositionNested differs from the implementation (1e-6)
-     2  H_nested_in_box false for a nested graph the REAL nested layout (grid / sequence) returned (1e-6)
+     2  H_nested_in_box false for a nested graph the REAL nested layout (grid / sequence) returned (1 px, the
+        property's tolerance: non-rectangular grid shapes have fractional inner boxes)
      3  a graph returned by the engine (dagre / ELK incl. their Go post-processing) violates clause 1 (> 1 px)
      4  a graph returned by the engine violates clause 2 (> 1 px in both axes)
     10  final diagram: a shape is not inside its container's box (> 1 px on the exported integers)
@@ -68,10 +69,11 @@ Definition check_case (c : case) : list N :=
       let corr := close_b (fst size) iw && close_b (snd size) ih &&
                   list_eqb tree_close (fst moved) f' && list_eqb pt_close (snd moved) pts' in
       let hyp := nested_in_box_b eps6 rootW rootH objs in
+      let hyp_px := nested_in_box_b px rootW rootH objs in
       let inside := forallb (fun b => inside_b (eps6 + eps6) b (mkbox cx cy iw ih)) (forest_boxes f') in
       let kept := implb' (forest_contain_b px f) (forest_contain_b (px + eps6) f') &&
                   implb' (forest_disjoint_b px f) (forest_disjoint_b (px + eps6) f') in
-      flag corr 1 ++ flag (implb' real hyp) 2 ++
+      flag corr 1 ++ flag (implb' real hyp_px) 2 ++
       flag (implb' (hyp && pad_nonneg_b pad) inside) 12 ++ flag kept 13
   | Pipe final calls =>
       flag (forallb (forest_contain_b px) calls) 3 ++ flag (forallb (forest_disjoint_b px) calls) 4 ++
